@@ -29,3 +29,6 @@ type Result struct {
 	WallS      float64        `json:"wall_s"`
 }
 
+
+// EnvInt is envInt for the in-package rigs.
+func EnvInt(name string, def int64) int64 { return envInt(name, def) }
